@@ -715,3 +715,18 @@ Lemma gg_normalised_thm L cur ja :
   is_absorbing L cur = false -> agents_apart cur ->
   dsum (gg_next_state_dist L (Some cur) ja) == 1.
 Proof. intros H1 H2 H3 H4 H5 H6 H7. exact (proj2 (gg_mirror_thm L cur ja H1 H2 H3 H4 H5 H6 H7)). Qed.
+
+(* the hypotheses of gg_mirror_thm are closed under the transitions it describes: from a valid state every
+   outcome is a valid state, and unless an agent then stands on its own goal (so that the next step is the
+   terminal one) the agents are again in distinct cells.  Hence they hold of every reachable non-terminal,
+   non-goal state of a game whose initial state is valid with the agents apart. *)
+Theorem gg_valid_closed_thm L cur ja pos :
+  state_valid L cur -> outcome_ok L cur ja pos ->
+  state_valid L pos /\ (~ on_own_goal L pos -> agents_apart pos).
+Proof.
+  intros SV [Len Gr Ob _ _ Sh _]. split.
+  - intros i Hi. rewrite Len in Hi. destruct (Gr i Hi) as [X Y]. repeat split; try lia. now apply Ob.
+  - intros NG i j Hij E. rewrite Len in Hij. destruct (Sh i j Hij E) as [g [Ig [Eg [Oi|Oj]]]]; apply NG.
+    + exists i, g. rewrite Len. repeat split; auto; lia.
+    + exists j, g. rewrite Len. repeat split; auto; try lia. now rewrite <- E.
+Qed.
